@@ -302,6 +302,28 @@ func c14RunCell(c c14Cell) (out c14Outcome) {
 			if _, err := e.VGet("i0", "c"); err == nil {
 				return fmt.Sprintf("%s: acknowledged VDelete(i0,c) is undone (c is readable)", when)
 			}
+			// the delete covers the secondary indexes as well: neither a filter nor a search may report c
+			if ids, err := e.VFilter("i0", "n=1", 10); err == nil {
+				for _, id := range ids {
+					if id == "c" {
+						return fmt.Sprintf("%s: acknowledged VDelete(i0,c): VFilter(n=1) still reports c", when)
+					}
+				}
+			}
+			if ids, err := e.VSearch("i0", []float32{1, 1}, 3, "", "", 0, 1, nil); err == nil {
+				for _, id := range ids {
+					if id == "c" {
+						return fmt.Sprintf("%s: acknowledged VDelete(i0,c): VSearch still reports c", when)
+					}
+				}
+			}
+			if ids, err := e.VSearch("i0", []float32{1, 1}, 3, "n=1", "", 0, 1, nil); err == nil {
+				for _, id := range ids {
+					if id == "c" {
+						return fmt.Sprintf("%s: acknowledged VDelete(i0,c): filtered VSearch(n=1) still reports c", when)
+					}
+				}
+			}
 		case "vmeta":
 			vd, err := e.VGet("i0", "a")
 			if err != nil || vd.Metadata["t"] != "merged" || vd.Metadata["s"] != "x" {
